@@ -308,7 +308,8 @@ static void check_rotation(int n)
   for (int i = 0; i < n; i++)
     for (int j = 0; j < n; j++)
       for (int k = 0; k < n; k++) {
-        double phi = -M_PI + 2 * M_PI * i / (n - 1), th = M_PI * j / (n - 1), psi = -M_PI + 2 * M_PI * k / (n - 1);
+        // all three angles over full turns: the polar angle too (the library itself passes negative polar angles: cone redirection)
+        double phi = -M_PI + 2 * M_PI * i / (n - 1), th = -M_PI + 3 * M_PI * j / (n - 1), psi = -M_PI + 2 * M_PI * k / (n - 1);
         double M[3][3];
         for (int c = 0; c < 3; c++) {
           bxdecay0::vector3 r = bxdecay0::rotate_zyz(e[c], phi, th, psi);
